@@ -1,6 +1,7 @@
 package main
 
 import (
+	"encoding/hex"
 	"encoding/json"
 	"fmt"
 	"io/ioutil"
@@ -51,7 +52,9 @@ type world struct {
 	key   map[string]*fx.Key
 	acct  map[string]string
 	outs  map[string][]utxoRef // abstract owner -> its funded outputs
+	mouts map[string][]utxoRef // ... -> its outputs of the transaction the regulator marked (Ledger.UpdateBlockChainData)
 	fund  *pb.Transaction
+	mfund *pb.Transaction
 	pay   *preExecd // $c07pay.pay pre-executed once (its inputs are outputs of C)
 	vprog *preExecd // a harmless $vprog call with a read and a write
 	seq   int64
@@ -235,7 +238,7 @@ func newWorld(name string) (*world, error) {
 		return nil, err
 	}
 	sd := seed()
-	w := &world{node: node, sd: sd, key: map[string]*fx.Key{}, acct: map[string]string{}, outs: map[string][]utxoRef{}, miner: fx.GetKey("m")}
+	w := &world{node: node, sd: sd, key: map[string]*fx.Key{}, acct: map[string]string{}, outs: map[string][]utxoRef{}, mouts: map[string][]utxoRef{}, miner: fx.GetKey("m")}
 	for _, k := range []string{"k1", "k2", "k3", "kx"} {
 		w.key[k] = fx.GetKey(fmt.Sprintf("c07/%d/%s", sd, k))
 	}
@@ -297,6 +300,39 @@ func newWorld(name string) (*world, error) {
 	for _, o := range owners {
 		for i := 0; i < outsPer; i++ {
 			w.outs[o] = append(w.outs[o], utxoRef{ftx.Txid, off, big.NewInt(outAmount).Bytes()})
+			off++
+		}
+	}
+	// a second funding transaction, confirmed and then marked by the regulator's ledger call
+	mtx := &pb.Transaction{Version: 3, Nonce: "c07-mfund", Timestamp: 3, Desc: []byte("mfund")}
+	mtx.TxInputs = []*protos.TxInput{{RefTxid: ftx.Txid, RefOffset: off, FromAddr: []byte(bank.Address), Amount: big.NewInt(total).Bytes()}}
+	for _, o := range owners {
+		for i := 0; i < outsPer; i++ {
+			mtx.TxOutputs = append(mtx.TxOutputs, &protos.TxOutput{ToAddr: []byte(w.name(o)), Amount: big.NewInt(outAmount).Bytes()})
+			total -= outAmount
+		}
+	}
+	mtx.TxOutputs = append(mtx.TxOutputs, &protos.TxOutput{ToAddr: []byte(bank.Address), Amount: big.NewInt(total).Bytes()})
+	if mtx, err = honestTx(mtx, bank, []*fx.Key{bank}); err != nil {
+		return nil, err
+	}
+	if err := node.State.DoTx(mtx); err != nil {
+		return nil, fmt.Errorf("fixture: DoTx(mfund): %v", err)
+	}
+	if err := w.mine(); err != nil {
+		return nil, err
+	}
+	if err := node.Ledger.UpdateBlockChainData(hex.EncodeToString(mtx.Txid), "00ff", "", "", 1); err != nil {
+		return nil, fmt.Errorf("fixture: UpdateBlockChainData: %v", err)
+	}
+	if q, err := node.Ledger.QueryTransaction(mtx.Txid); err != nil || q.GetModifyBlock() == nil || !q.ModifyBlock.Marked {
+		return nil, fmt.Errorf("fixture: the marked transaction does not read back as marked: %v", err)
+	}
+	w.mfund = mtx
+	off = 0
+	for _, o := range owners {
+		for i := 0; i < outsPer; i++ {
+			w.mouts[o] = append(w.mouts[o], utxoRef{mtx.Txid, off, big.NewInt(outAmount).Bytes()})
 			off++
 		}
 	}
